@@ -72,10 +72,12 @@ fn main() {
         let wr = WRITERS[(i / 2) % WRITERS.len()];
         let ch = match rng.below(4) { 0 => 1u8, 1 | 2 => 2, _ => rng.range(1, 6) as u8 };
         let bps = *rng.pick(&[8u32, 16, 16, 24, 32, 12, 5, 20]);
-        let bs = rng.range(16, 40) as u16;
+        // every fifteenth stream has blocks large enough that the output spans several 8 KiB buffers
+        let big = i % 15 == 14;
+        let bs = if big { *rng.pick(&[1152u16, 2048]) } else { rng.range(16, 40) as u16 };
         let rate = if matches!(seek, SeekPol::Seconds(_)) || matches!(seek, SeekPol::Default) { *rng.pick(&[8u32, 20, 44100, 1, 100]) } else { pick_rate(&mut rng) };
         let cfg = Cfg { ch, bps, rate, bs, lpc: *rng.pick(&[None, Some(4u8), Some(8)]), po: rng.range(0, 4) as u32, mid_side: rng.chance(1, 2), fast: rng.chance(1, 2), win: Win::Tukey(0.5), declare_total, seek: seek.clone(), padding: match rng.below(3) { 0 => None, 1 => Some(0), _ => Some(rng.range(1, 64) as u32) } };
-        let nblocks = rng.range(1, 5) as usize;
+        let nblocks = if big { rng.range(3, 5) } else { rng.range(1, 5) } as usize;
         let tail = rng.range(0, bs as i64 - 1) as usize;
         let frames = nblocks * bs as usize + tail;
         let kind = kinds[i % kinds.len()];
